@@ -412,6 +412,35 @@ fn check_symlink2(naming: Option<NamingK>, mode: ModeK, starttime: bool, word: &
 
 // ---------------------------------------------------------------- units
 
+// ---------------------------------------------------------------- (B2) setting after evaluation
+
+/// A FileSpec whose path has been looked at (as_pathbuf is public) still obeys a later change of
+/// its start-time setting: the documented name grammar depends on the settings, not on history.
+fn check_setting_after_evaluation() -> Result<usize, (String, String)> {
+    let env = Env::new("c16e");
+    env.enter();
+    let start = env.clock.peek().format("%Y-%m-%d_%H-%M-%S").to_string();
+    let mut n = 0;
+    for (what, want_ts) in [("suppress_timestamp", false), ("use_timestamp(true)", true)] {
+        for evaluate_first in [false, true] {
+            let fs = FileSpec::default().directory(&env.dir).basename("app");
+            if evaluate_first {
+                let _ = fs.as_pathbuf(None);
+            }
+            let fs = if want_ts { fs.use_timestamp(true) } else { fs.suppress_timestamp() };
+            let name = fs.as_pathbuf(None).file_name().map(|f| f.to_string_lossy().to_string()).unwrap_or_default();
+            let want = if want_ts { format!("app_{start}.log") } else { "app.log".to_string() };
+            if name != want {
+                env.leave();
+                return Err(("setting-ignored".into(), format!("FileSpec::default().basename(\"app\"){}.{what}() denotes {name:?}, documented: {want:?}", if evaluate_first { " [as_pathbuf() called here]" } else { "" })));
+            }
+            n += 1;
+        }
+    }
+    env.leave();
+    Ok(n)
+}
+
 // ---------------------------------------------------------------- (B) builder call order
 
 /// The names do not depend on the order in which the builder methods are called: with rotation a
@@ -536,6 +565,11 @@ fn run_unit(tier: &str, unit: usize, out: &mut Out) {
     }
     let u = unit - n_units();
     if u < p_units() {
+        out.evaluations += 1;
+        match isolated(check_setting_after_evaluation) {
+            Ok(_) => out.outcome("setting-after-evaluation-ok"),
+            Err((clause, detail)) => out.violation(Violation::new(&clause, "filespec/setting-after-evaluation".to_string(), detail, json!({"kind": "E"}))),
+        }
         for naming in NG {
             out.evaluations += 1;
             match isolated(move || check_builder_order(naming)) {
@@ -634,6 +668,10 @@ fn replay(case: &Value) -> Vec<Violation> {
             let c = ncases()[idx.min(ncases().len() - 1)].clone();
             println!("replay C16 names: {c:?}");
             isolated(move || check_names(&c))
+        }
+        Some("E") => {
+            println!("replay C16: setting after evaluation");
+            isolated(check_setting_after_evaluation)
         }
         Some("B") => {
             let naming = NG.into_iter().find(|n| Some(n.short()) == case["naming"].as_str()).unwrap_or(NamingK::Numbers);
